@@ -66,9 +66,11 @@ def switch_skeletons(pack, full=True):
             ('plus', ('chr', 'p')),
             ('cap', ('chr', 'r')),
             ('seq', [('act', 0), ('chr', 's')]),
+            ('seq', [('chr', 't'), ('q', ('chr', 'u'))]),                              # ends in `?`: the emitted case body ends in a bare label
+            ('seq', [('chr', 'v'), ('alt', [('chr', 'w'), ('chr', '1')], False)]),     # ends in a choice: likewise
         ]
     n = len(pool(0))
-    idx = list(range(n)) if full else [0, 1, 2, 3, 4, 6, 8, 11]
+    idx = list(range(n)) if full else [0, 1, 2, 3, 4, 6, 8, 11, 12]
     combos = [(a, b, c) for a in idx for b in idx for c in idx]
     packs = []
     for i in range(0, len(combos), pack):
@@ -83,7 +85,7 @@ def switch_skeletons(pack, full=True):
     return packs
 
 
-SKEL_INPUTS = ['', 'aq', 'bq', 'cq', 'df', 'ef', 'f', 'gh', 'h', 'i', 'ii', 'x', 'jx', 'kl', 'kkl', 'l', 'mo', 'no', 'xz', 'yz', 'z', 'p', 'pp', 'r', 's', 'aqx', 'q', 'e']
+SKEL_INPUTS = ['', 'aq', 'bq', 'cq', 'df', 'ef', 'f', 'gh', 'h', 'i', 'ii', 'x', 'jx', 'kl', 'kkl', 'l', 'mo', 'no', 'xz', 'yz', 'z', 'p', 'pp', 'r', 's', 'aqx', 'q', 'e', 't', 'tu', 'tq', 'vw', 'v1', 'v']
 
 
 def grammars(tier, seed, name='core'):
